@@ -119,7 +119,7 @@ impl Check for SimCheck {
         if ["C01", "C04", "C05", "C06"].contains(&self.id) {
             v.push(Part { name: "schedules", kind: PartKind::Random { cases: tier.pick(400, 6000), main: 80, ops: 2, oplen: 40, sched: 30 } });
         }
-        if ["C02", "C03", "C05"].contains(&self.id) {
+        if ["C01", "C02", "C03", "C05"].contains(&self.id) {
             v.push(Part { name: "bb-incr", kind: PartKind::Random { cases: tier.pick(160, 3000), main: 100, ops: 5, oplen: 40, sched: 0 } });
         }
         if self.id == "C04" {
